@@ -429,3 +429,24 @@ func ConstString(n Node) (string, bool) {
 	}
 	return "", false
 }
+
+// Reaches reports whether some node satisfying pred lies on a backward path from start.
+func (g *Graph) Reaches(start Node, pred func(Node) bool) bool {
+	seen := map[Node]bool{}
+	work := []Node{start}
+	for len(work) > 0 {
+		n := work[len(work)-1]
+		work = work[:len(work)-1]
+		if seen[n] {
+			continue
+		}
+		seen[n] = true
+		if pred(n) {
+			return true
+		}
+		for _, e := range g.in[n] {
+			work = append(work, e.from)
+		}
+	}
+	return false
+}
